@@ -292,6 +292,8 @@ func c19Pull(c *core.Ctx, r *c19run) {
 				okArgs = okArgs && r.fromRunParam(uf, arg, r.keyObj, 0)
 			case c19isBool(t):
 				okArgs = okArgs && r.fromRunParam(uf, arg, r.prefObj, 0)
+			case r.targetObj != nil && t != nil && types.Identical(t, r.targetObj.Type()):
+				okArgs = okArgs && r.fromRunParam(uf, arg, r.targetObj, 0)
 			}
 		}
 		c.Check(okArgs, "R-C19-2", ps.u.name+"|pull reads run's key with run's prefix flag", pos(c, ps.call),
@@ -366,19 +368,46 @@ func c19Pull(c *core.Ctx, r *c19run) {
 				nb++
 			}
 		}
-		if nb != 1 {
-			c.Undecide("R-C19-2", pname+"|prefix read iff prefix flag", pos(c, d.fd), "pull does not have exactly one bool parameter")
+		flagKey := ""
+		if nb == 1 {
+			flagKey = pf.VarKey(c19defIdent(pf, d.fd.Type, flag))
+		} else if nb == 0 {
+			// the flag travels as the bool field of a parameter object: `t.prefix`
+			for _, v := range c19params(pf, pf.Type) {
+				tf := c19targetFields(v.Type())
+				if tf == nil {
+					continue
+				}
+				ast.Inspect(d.fd.Body, func(n ast.Node) bool {
+					if sel, ok := n.(*ast.SelectorExpr); ok && flagKey == "" && c19obj(pf, sel.X) == types.Object(v) {
+						if sl := pf.Info.Selections[sel]; sl != nil && sl.Obj() == types.Object(tf[1]) {
+							flagKey = pf.VarKey(sel)
+						}
+					}
+					return true
+				})
+				if flagKey == "" {
+					flagKey = "v:<the prefix field is never consulted>"
+				}
+			}
+		}
+		if flagKey == "" {
+			c.Undecide("R-C19-2", pname+"|prefix read iff prefix flag", pos(c, d.fd), "pull has neither exactly one bool parameter nor a (key, prefix) parameter object")
 			continue
 		}
-		flagKey := pf.VarKey(c19defIdent(pf, d.fd.Type, flag))
 		okFlag := true
 		var badSt *flow.State
 		why = ""
 		for _, site := range s.sites {
 			isPref := a.withPrefix(pf.Info, site)
 			if cfo, ok := pf.Callee(site).(*types.Func); ok && !c19isKV(cfo) {
-				if cd := a.declOf(cfo); cd != nil && a.withPrefix(cd.pkg.TypesInfo, cd.fd.Body) {
-					isPref = true
+				if cd := a.declOf(cfo); cd != nil {
+					// the option may sit in a helper of the read (e.g. a rangePrefix method)
+					for _, g := range reach(flow.NewFunc(cd.pkg, cd.fd), 3) {
+						if a.withPrefix(g.Info, g.Body) {
+							isPref = true
+						}
+					}
 				}
 			}
 			for _, st := range s.res.At[site] {
